@@ -105,9 +105,16 @@ def evaluate(case):
         # full region grid of burst_fraction_threshold on the last table, post hoc
         if dur is None:
             feats = df.drop(columns=['is_burst'])
+            ik = (len(w) + sum(map(ord, w)) + int(m)) % 3
+            if ik == 1:
+                feats.index = range(3, 3 + len(feats))
+            elif ik == 2:
+                feats.index = list(range(len(feats)))[::-1]
             prev = None
             for thr_v in region_grid(bf):
                 out = detect_bursts_amp(feats.copy(), burst_fraction_threshold=thr_v, min_n_cycles=m)
+                if out['is_burst'].isna().any():
+                    return VIOL({'kind': 'amp', 'what': 'labels-grid', 'centre': centre, 'index': ik}, 'is_burst contains NaN', evals=nev)
                 got = [bool(x) for x in out['is_burst']]
                 exp = min_run_filter([v >= thr_v for v in bf], m)
                 nev += 1
@@ -122,6 +129,31 @@ def evaluate(case):
     return OK(outcome=(w, centre, at, hash(tuple(outs))), nontrivial=nt, evals=nev)
 
 
+def eval_short_table(case):
+    """A large boundary leaves a table with fewer rows than min_n_cycles although the sample-wise detector (which counts
+    cycles of the low band edge over the whole signal) still finds a burst: burst_fraction must be computed all the same."""
+    from neurodsp.burst import detect_bursts_dual_threshold
+    from bycycle.features import compute_features
+    letters, (centre, m) = case[:-1], case[-1]
+    w = ''.join(letters)
+    sig = S.word_signal(w)
+    o = S.resolve((('trough',) if centre == 'trough' else ()) + ('b12',))
+    ok, why, ref = precondition(sig, o, min_peaks=2)
+    if not ok:
+        return SKIP(why)
+    sc = sample_cols(centre)
+    df = compute_features(np.array(sig), 64, (6, 14), center_extrema=centre, burst_method='amp',
+                          threshold_kwargs={'burst_fraction_threshold': .5, 'min_n_cycles': m},
+                          burst_kwargs={'amp_threshes': (.5, 1.)}, find_extrema_kwargs={'boundary': 12})
+    mask = detect_bursts_dual_threshold(sig, 64, (.5, 1.), (6, 14), min_n_cycles=m)
+    bf = np.array([mask[int(a):int(b) + 1].mean() for a, b in zip(df[sc['last']], df[sc['next']])])
+    if not same_values(df['burst_fraction'].to_numpy(), bf):
+        return VIOL({'kind': 'amp', 'centre': centre, 'what': 'burst_fraction', 'via': 'short-table', 'rows': len(df), 'm': m},
+                    'burst_fraction of a %d-row table with min_n_cycles=%d is not the inclusive-window mean of the detector mask' % (len(df), m),
+                    expected=bf.tolist(), observed=df['burst_fraction'].tolist())
+    return OK(outcome=(w, centre, m, tuple(np.round(bf, 6))), nontrivial=len(df) < m and bool(bf.any()))
+
+
 def spaces(tier, seed):
     global FULL
     FULL = tier != 'quick'
@@ -129,7 +161,10 @@ def spaces(tier, seed):
     if tier == 'quick':
         al = S.alphabet(4)
         leaf = [(c, a) for c in ('peak', 'trough') for a in AMP_THRESHES[:2]]
-        return [ProductSpace('W(4,5)xroutes', S.word_dims(al, 5) + [leaf], evaluate,
+        st = [(c, m) for c in ('peak', 'trough') for m in (3, 4, 5)]
+        return [ProductSpace('W(2,8)-short-tables', S.word_dims(['a', 'd'], 8) + [st], eval_short_table,
+                             describe='8-letter words with boundary 12: tables with fewer rows than min_n_cycles'),
+                ProductSpace('W(4,5)xroutes', S.word_dims(al, 5) + [leaf], evaluate,
                              bounds={'letters': al, 'routes': 16, 'durations': 2, 'amp_threshes': AMP_THRESHES})]
     al = S.alphabet(8, seed, extra=1)
     return [ProductSpace('W(9,5)xroutes', S.word_dims(al, 5) + [leaf[:1] + leaf[4:5]], evaluate, bounds={'letters': al}),
